@@ -592,6 +592,53 @@ def execute_b(case):
     return res
 
 
+# ---- stratum R: a bounded eval after a runaway one, sharing a global array (and its methods)
+R_METHODS = {
+    "forEach": ("GA.forEach(rq);", "GA.forEach(function(x){ n++; });"),
+    "map": ("GA.map(rq);", "GA.map(function(x){ n++; return x; });"),
+    "filter": ("GA.filter(rq);", "GA.filter(function(x){ n++; return true; });"),
+    "some": ("GA.some(rq);", "GA.some(function(x){ n++; return false; });"),
+    "every": ("GA.every(rq);", "GA.every(function(x){ n++; return true; });"),
+    "find": ("GA.find(rq);", "GA.find(function(x){ n++; return false; });"),
+    "reduce": ("GA.reduce(rq, 0);", "GA.reduce(function(a, x){ n++; return a; }, 0);"),
+    "sort": ("GA.sort(rq);", "GA.sort(function(a, b){ n++; return a - b; });"),
+}
+
+
+def gen_case_r(seed, i, tier):
+    rng = substream(seed, "c02r", i)
+    m = rng.choice(sorted(R_METHODS))
+    cell = {"stratum": "R", "method": m, "first_use": rng.choice(("runaway", "bounded_then_runaway")),
+            "wrap_try": rng.random() < 0.3}
+    run, use = R_METHODS[m]
+    first = "GA = [3, 1, 2]; function rq(){ %s return 0; }\n" % run
+    if cell["first_use"] == "bounded_then_runaway":
+        first += "var n = 0; %s\n" % use
+    first += ("try { rq(); } catch (e) { p('c'); }" if cell["wrap_try"] else "rq();") + "\n'unreachable';"
+    second = "var n = 0; for (var i = 0; i < 30; i++) { %s } [n > 0, 'done'][1];" % use
+    return {"property": PROPERTY, "seed": seed, "index": i, "cell": cell, "world": {"tick": 1e-5, "epoch": 1000.0},
+            "M": loguniform(rng, 4000, 200_000), "T_work": None, "src": first, "src2": second}
+
+
+def execute_r(case):
+    W.install()
+    from microjs import Context
+    W.reset(tick=case["world"]["tick"], epoch=case["world"]["epoch"], seed=case.get("seed", 0))
+    ctx = Context(memory_limit=case["M"])
+    ctx.set("p", lambda *a: None)
+    o1 = run_eval(ctx, case["src"], int(PROP_C * case["M"] + PROP_C0) * 5)
+    o2 = run_eval(ctx, case["src2"], 3_000_000)
+    v = []
+    if o1["kind"] != "limit_mem":
+        v.append({"clause": "precondition", "detail": "first eval ended in %s %s" % (o1["kind"], o1.get("msg"))})
+    elif o2["kind"] == "limit_mem":
+        v.append({"clause": "C02.A.scale", "detail": "after a runaway eval was stopped, a bounded eval using the same global array's %s was stopped by MemoryLimitError under memory_limit=%d" % (case["cell"]["method"], case["M"])})
+    elif not (o2["kind"] == "value" and o2.get("value") == "done"):
+        v.append({"clause": "precondition", "detail": "second eval ended in %s %s %s" % (o2["kind"], o2.get("cls"), o2.get("msg"))})
+    return {"outcome": o2["kind"], "first": o1["kind"], "work": (o1["end_work"] - o1["start_work"]) + (o2["end_work"] - o2["start_work"]),
+            "elapsed": 0.0, "violations": v, "digest": W.digest(), "bdigest": W.bdigest(), "landing": "", "n_probes": 0, "real_peak": None}
+
+
 _gen_case_a = gen_case
 _execute_a = execute
 _features_a = features
@@ -604,16 +651,23 @@ _sample_view_a = sample_view
 def gen_case(seed, i, tier="quick"):
     if i % 10 in (3, 6, 9):      # 30% of the cases are Part B
         return gen_case_b(seed, i, tier)
+    if i % 50 == 7:              # 2%: a bounded eval after a runaway one
+        return gen_case_r(seed, i, tier)
     return _gen_case_a(seed, i, tier)
 
 
 def execute(case):
     if case["cell"]["stratum"] == "B":
         return execute_b(case)
+    if case["cell"]["stratum"] == "R":
+        return execute_r(case)
     return _execute_a(case)
 
 
 def features(case, res=None):
+    if case["cell"]["stratum"] == "R":
+        c = case["cell"]
+        return sorted(["stratum:R", "method:" + c["method"], "first:" + c["first_use"]] + (["wrap_try"] if c["wrap_try"] else []))
     if case["cell"]["stratum"] == "B":
         c = {"prog": case["prog"], "schedules": [case["faults"]]}
         return sorted(set(["stratum:B", "mode:" + case["cell"]["mode"]] + _c07.features(c)))
@@ -621,12 +675,16 @@ def features(case, res=None):
 
 
 def normalise(case):
+    if case["cell"]["stratum"] == "R":
+        return {"features": features(case)}
     if case["cell"]["stratum"] == "B":
         return {"prog": json.dumps(case["prog"]["funcs"], sort_keys=True), "faults": case["faults"], "mode": case["cell"]["mode"]}
     return {"features": _features_a(case)}
 
 
 def shrink_candidates(case):
+    if case["cell"]["stratum"] == "R":
+        return
     if case["cell"]["stratum"] != "B":
         for c in _shrink_a(case):
             yield c
@@ -650,6 +708,8 @@ def shrink_candidates(case):
 
 
 def nontrivial_key(case, res):
+    if case["cell"]["stratum"] == "R":
+        return "R|%s|%s|%s" % (case["cell"]["method"], case["cell"]["first_use"], res.get("first"))
     if case["cell"]["stratum"] == "B":
         if res.get("M1") is None:
             return None
@@ -658,6 +718,9 @@ def nontrivial_key(case, res):
 
 
 def stats(case, res):
+    if case["cell"]["stratum"] == "R":
+        return {"outcome": "R:%s-then-%s" % (res.get("first"), res.get("outcome")), "faults_fired": ["mem"] if res.get("first") == "limit_mem" else [],
+                "precondition_failed": 1 if any(x["clause"] == "precondition" for x in res.get("violations", [])) else 0}
     if case["cell"]["stratum"] == "B":
         return {"outcome": "B:" + str(res.get("big_outcome") or res.get("outcome")), "b_mode": case["cell"]["mode"],
                 "b_faults": str(len(case["faults"])), "b_iterations": case["cell"]["nbig"],
@@ -668,6 +731,8 @@ def stats(case, res):
 
 
 def sample_view(case):
+    if case["cell"]["stratum"] == "R":
+        return {"index": case["index"], "cell": case["cell"], "M": case["M"], "src": case["src"], "src2": case["src2"]}
     if case["cell"]["stratum"] == "B":
         return {"index": case["index"], "cell": case["cell"], "faults": case["faults"], "src": case["src"]}
     return _sample_view_a(case)
